@@ -44,6 +44,9 @@ type Ext struct{ Name string }
 
 type TypeV struct{ T types.Type }
 
+// U64 carries a uint64 the evaluator must not squeeze into int64 (enum values).
+type U64 uint64
+
 func (m *MapV) Keys() []interface{} {
 	keys := make([]interface{}, 0, len(m.M))
 	for k := range m.M {
@@ -66,6 +69,10 @@ func keyLess(a, b interface{}) bool {
 	case bool:
 		if y, ok := b.(bool); ok {
 			return !x && y
+		}
+	case U64:
+		if y, ok := b.(U64); ok {
+			return x < y
 		}
 	}
 	return fmt.Sprint(a) < fmt.Sprint(b)
